@@ -376,6 +376,10 @@ def make_cmp_lp(ctx):
             vm, vc = parse_rats(a["v"]), parse_rats(b["v"])
             if dist(vm, vc) > F(1, 10 ** 9) * (1 + max(abs(x) for x in vm)):
                 return "lp: v outside the envelope of the model's double run"
+        # hypothesis of theorem `lp_exit_optimal`: the n initial pivots onto the start policy are valid
+        ctx.count("lp:start-validation-holds" if a.get("rstart") == "1" else "lp:start-validation-FAILS")
+        if a.get("rstart") != "1":
+            return "lp: the initial pivots met a zero pivot or a negative right-hand side (exact run)"
         if a["rok"] == "1":
             # hypothesis of theorem `lp_certified` on the exact run of the model
             ctx.count("lp:exact-run-certificate-holds" if a["rcert"] == "1" else "lp:exact-run-certificate-FAILS")
@@ -690,6 +694,8 @@ def run(ctx):
     ctx.assumptions.append("np.linalg.solve / spsolve / BLAS dot are not modelled: evaluate_policy is compared inside "
                            "1e-9*(1+|v|); discrete outputs of runs whose comparisons are decided by rounding "
                            "(model margin <= 1e-7*(1+|v*|)) are counted, not compared")
-    ctx.assumptions.append("linear-programming method: the model (tableau, n initial pivots, solve_tableau with the "
-                           "lexicographic ratio test) is compared through its double instance; no theorem is proved "
-                           "about the simplex loop here (see C04), only the optimality certificate `lp_certificate`")
+    ctx.assumptions.append("linear-programming method: the model (tableau, n initial pivots, C04's solve_tableau with the "
+                           "lexicographic ratio test) is compared through its double instance (sigma, num_iter exact, bits "
+                           "of v counted); theorems lp_exit_optimal / lp_terminates / lp_correct are for tolerances 0, "
+                           "lp_exit_partial for the code's tolerances; the exact run's start validation (`rstart`, proved "
+                           "to hold by lp_start_valid) and output certificate (`rcert`) are asserted on every case")
